@@ -24,6 +24,7 @@ func checkC02(p *Prog, r *Report) {
 	ruleC02And(p, a, r)
 	ruleC02Mode(p, a, r)
 	ruleC02NeedsEscape(p, a, r)
+	ruleC02NoDecode(p, a, r)
 	r.Begin("R-C02-TABLE", "the escape filter replaces & < > \" ' by entities, & first (same table rule as R-C17-ESC)", 4)
 	if esc := a.FilterFuncs["escape"]; esc != nil {
 		checkReplaceTable(p, r, esc, "escape", map[string]bool{"&": true, "<": true, ">": true, "\"": true, "'": true}, func(pr replPair) string {
